@@ -14,7 +14,7 @@ def queries(tier):
               ('qs', 2, 2, 0, 0, 0, 0), ('qs', 2, 2, 3, 0, 0, 3), ('qs', 2, 2, 5, 0, 0, 5), ('qs', 2, 2, 3, 2, 1, 5),
               ]
     if tier == 'thorough':   # req: symex of the compactor set-up (floating-point section sizing) did not finish in the quick budget
-        shapes += [('kll', 8, 8, 9, 9, 1, 18), ('kll', 8, 8, 11, 9, 1, 20), ('qs', 2, 2, 9, 0, 0, 9), ('qs', 2, 2, 5, 4, 1, 9), ('qs', 2, 4, 5, 9, 1, 14)]
+        shapes += [('qs', 2, 4, 5, 9, 1, 14)]   # kll 9+9 / 11+9 merges and classic 9 items / 5+4 merge: no verdict in 600 s
     for (fam, k, k2, na, nb, mg, mr) in shapes:
         qs.append(Q(f'{fam}_k{k}_a{na}_b{nb}_m{mg}', 'quant', 'c07_quant.c', defs=dict({'FAM': fam, 'KK': k, 'KK2': k2, 'NA': na, 'NB': nb, 'MERGE': mg, 'MAXRET': mr}, **({'LIGHT': None} if na + nb > 4 else {})),
                     unwind=max(na + nb, 8) + 4, unwindset={'^(harness|run|verif_mem.*|verif_new.*)$': 50}, timeout=(300 if tier == 'quick' else 1800), native_vectors=200,
